@@ -42,6 +42,7 @@ type Case struct {
 	TgtDir   bool   `json:",omitempty"`
 	Gzip     bool   `json:",omitempty"`
 	ExpRef   bool   `json:",omitempty"` // export under another name
+	GzMulti  bool   `json:",omitempty"` // gzip streams written by the harness (archive, Docker layers) consist of several members, as pigz / bgzip / eStargz write them
 	Corrupt  bool   `json:",omitempty"` // layout sources: one blob file of the image holds other bytes of the same length
 	Pinned   bool   `json:",omitempty"` // the exported reference (or the name override) carries tag AND digest, as "regctl image export --platform" passes it
 	Sel      string `json:",omitempty"` // tag | digest | name
@@ -67,7 +68,31 @@ type Ent struct {
 
 func sha(b []byte) string { s := sha256.Sum256(b); return "sha256:" + hex.EncodeToString(s[:]) }
 
+// gzMembers: several gzip members per stream when set (per case; the harness runs its cases one after another)
+var gzMembers bool
+
+func gzParts(b []byte) []byte {
+	if !gzMembers || len(b) < 4 {
+		var buf bytes.Buffer
+		zw := gzip.NewWriter(&buf)
+		_, _ = zw.Write(b)
+		_ = zw.Close()
+		return buf.Bytes()
+	}
+	var out bytes.Buffer
+	cuts := []int{0, len(b) / 3, 2 * len(b) / 3, len(b)}
+	for i := 0; i+1 < len(cuts); i++ {
+		zw := gzip.NewWriter(&out)
+		_, _ = zw.Write(b[cuts[i]:cuts[i+1]])
+		_ = zw.Close()
+	}
+	return out.Bytes()
+}
+
 func writeTar(ents []Ent, gz bool) []byte {
+	if gz && gzMembers {
+		return gzParts(writeTar(ents, false))
+	}
 	var buf bytes.Buffer
 	var w io.Writer = &buf
 	var zw *gzip.Writer
@@ -566,6 +591,7 @@ func runCase(c Case, tmp string, res *lib.Result) (ret []string) {
 }
 
 func runCaseRaw(c Case, tmp string, res *lib.Result) []string {
+	gzMembers = c.GzMulti
 	dir, _ := os.MkdirTemp(tmp, "c09-")
 	defer os.RemoveAll(dir)
 	r := lib.NewRand(c.Seed)
@@ -979,13 +1005,7 @@ func transform(ents []Ent, c Case, r *lib.Rand, g *imgen.Graph, removed *string)
 }
 
 // ---------- Docker save-format archives ----------
-func gz(b []byte) []byte {
-	var buf bytes.Buffer
-	zw := gzip.NewWriter(&buf)
-	_, _ = zw.Write(b)
-	_ = zw.Close()
-	return buf.Bytes()
-}
+func gz(b []byte) []byte { return gzParts(b) }
 func gunzip(b []byte) []byte {
 	if len(b) > 2 && b[0] == 0x1f && b[1] == 0x8b {
 		zr, err := gzip.NewReader(bytes.NewReader(b))
@@ -1247,6 +1267,7 @@ func genCase(r *lib.Rand) Case {
 		c.Kind = "docker"
 		c.Style = lib.Pick(r, []string{"legacy", "ggcr", "flat"})
 		c.LayerGz, c.Gzip = r.Bool(), r.Chance(20)
+		c.GzMulti = (c.LayerGz || c.Gzip) && r.Chance(50)
 		c.Images = 1 + r.Intn(2)
 		c.Shuffle = r.Intn(3)
 		c.Sel = "tag"
@@ -1285,6 +1306,8 @@ func Run(o lib.Opts) {
 		{Kind: "rt", Seed: 21, Special: "unknown-mt-entry", Sel: "tag"},
 		{Kind: "docker", Seed: 22, Style: "legacy", Images: 1, Sel: "tag"},
 		{Kind: "docker", Seed: 23, Style: "ggcr", Images: 1, Sel: "tag", LayerGz: true},
+		{Kind: "docker", Seed: 24, Style: "ggcr", Images: 1, Sel: "tag", LayerGz: true, GzMulti: true},
+		{Kind: "docker", Seed: 25, Style: "legacy", Images: 2, Sel: "tag", Gzip: true, GzMulti: true},
 		{Kind: "perm", Seed: 24, Links: 2, Sel: "tag"},
 		{Kind: "perm", Seed: 25, Links: 1, Sel: "tag", Shuffle: 1},
 		{Kind: "rt", Seed: 26, Sel: "tag", Stale: true},
